@@ -65,6 +65,16 @@ structure Cfg where
   algs : List AlgInfo
   progs : List ProgInfo
 
+/-- `CollectDps::datapath_programs`: the union over all algorithms with an instance, collected into a
+`HashMap` from the outermost (latest) registration inwards, so on a name collision the algorithm
+registered earlier (the default first) wins. `algs` is in registration order, default first; inside one
+algorithm's own map names are unique. The result is keyed by name (order irrelevant: it is a map). -/
+def unionProgs {α : Type} : List (Bool × List (String × α)) → List (String × α)
+  | [] => []
+  | (inst, ps) :: rest =>
+    let mine := if inst then ps else []
+    mine ++ (unionProgs rest).filter fun q => !(mine.any fun p => p.1 == q.1)
+
 def Cfg.scopeMap (c : Cfg) : List (String × Scope) := c.progs.map fun p => (p.pname, p.scope)
 
 /-- `Pick::pick` over registrations numbered 1.. (0 = default): the most recently registered
@@ -73,8 +83,13 @@ def pickFrom : List (Nat × AlgInfo) → Bytes → Nat
   | [], _ => 0
   | (i, a) :: rest, name => if a.hasInstance ∧ a.name = name then i else pickFrom rest name
 
+/-- number the registrations `i, i+1, …` -/
+def numberFrom (i : Nat) : List AlgInfo → List (Nat × AlgInfo)
+  | [] => []
+  | a :: rest => (i, a) :: numberFrom (i + 1) rest
+
 def Cfg.pick (c : Cfg) (name : Bytes) : Nat :=
-  pickFrom ((List.range c.algs.length).zip c.algs).tail.reverse name
+  pickFrom (numberFrom 1 c.algs.tail).reverse name
 
 structure Flow (σ : Type) where
   no : Nat
